@@ -3,6 +3,7 @@
         script letters: A answer, t/x/p/o fault before the tag (command lost), T/X/P/O fault after the tag
         (response lost); classes timeout / transmission / protocol / other
         -> "<attempts> <result> <deliveries>"   result: ok | err TagCommandError:<n> | err RuntimeError | crash UnboundLocalError
+   present4 <script>       -> Type4Tag.is_present: "<true|false> <attempts>"
    classes                 -> names of the tag classes
    entries <class>         -> entry names
    escapes <class> <entry> <named|any>   -> classes the analysis computes for that public method
@@ -80,6 +81,8 @@ let handle w =
     let d = deliveries k (script_of l) O in
     Printf.sprintf "%d %s %s" (int_of_nat k) (show_res r)
       (if d = [] then "-" else String.concat "" (List.map (fun b -> if b then "a" else "u") d))
+  | ["present4"; sc] ->
+    let (b, k) = run_t4_is_present (script sc) in Printf.sprintf "%s %d" (if b then "true" else "false") (int_of_nat k)
   | ["classes"] -> String.concat " " (List.map (fun (((n, _), _), _) -> ocaml_string n) tag_programs)
   | ["entries"; c] -> let (_, ents) = find_class c in String.concat " " (List.map (fun (e, _) -> ocaml_string e) ents)
   | ["escapes"; c; e; which] ->
